@@ -34,7 +34,7 @@ logging.getLogger("aiohttp.server").disabled = True
 logging.getLogger("aiohttp.access").disabled = True
 logging.getLogger("aiohttp.web").disabled = True
 
-OK_KINDS = ("ret", "yield", "sleep", "read_body", "ignore_body", "stream", "stream_cl")
+OK_KINDS = ("ret", "yield", "sleep", "read_body", "ignore_body", "stream", "stream_cl", "payload", "aiter")
 STATUS = {"http_exc": {403}, "exc": {500}, "timeout": {504}, "non_response": {500}, "partial_raise": {200}, "partial_timeout": {200}}
 
 
@@ -48,6 +48,13 @@ def build_request(i: int, r: dict) -> bytes:
     if r.get("upgrade") and bk != "none":
         # an upgrade offer on a request with a body (declined by the handler): the body still belongs to this request
         head += "Upgrade: websocket\r\nConnection: upgrade\r\n"
+    if bk == "cl_deflate":
+        # a compressed body (decoded size n, mostly zeros): the parser inflates it and is paused and resumed by the reader's
+        # flow control several times within the one read that also holds the requests behind it
+        import zlib
+
+        comp = zlib.compress(b"z" * n)
+        return (head + f"Content-Encoding: deflate\r\nContent-Length: {len(comp)}\r\n\r\n").encode() + comp
     if bk == "cl":
         return (head + f"Content-Length: {n}\r\n\r\n").encode() + data
     if bk == "chunked":
@@ -154,6 +161,18 @@ def execute(case: dict) -> dict:
                 await resp.write(b"def")
                 await resp.write_eof()
                 return resp
+            if kind == "payload":
+                # a body that becomes a Payload object (file-like), not bytes
+                import io
+
+                return web.Response(status=r.get("status", 200), body=io.BytesIO(b"abcdef"), headers=hdr)
+            if kind == "aiter":
+                async def gen():
+                    yield b"abc"
+                    await asyncio.sleep(0)
+                    yield b"def"
+
+                return web.Response(status=r.get("status", 200), body=gen(), headers=hdr)
             return web.Response(text=f"r{i}", headers=hdr)
 
         box: dict = {}
@@ -324,12 +343,14 @@ def execute(case: dict) -> dict:
                 raise Violation("response-order", f"response #{j} carries marker {mark!r}, expected request {who}; statuses {[x.status for x in finals]}")
             kind = reqs[who].get("h", "ret")
             exp = STATUS.get(kind, {200})
-            if kind in ("stream", "stream_cl"):
+            if kind in ("stream", "stream_cl", "payload", "aiter"):
                 exp = {reqs[who].get("status", 200)}
+            if kind == "read_body" and reqs[who].get("body") == "cl_deflate" and reqs[who].get("n", 0) > 1024 ** 2:
+                exp = {413}  # client_max_size (1 MiB) applies to the decoded size
             if r.status not in exp:
                 raise Violation(f"unexpected-status/{kind}", f"request {who} ({kind}) answered with {r.status}, expected {sorted(exp)}")
             if r.complete and kind in OK_KINDS and r.status == 200:
-                want = {"ret": f"r{who}", "yield": f"r{who}", "sleep": f"r{who}", "ignore_body": f"r{who}", "stream": "abcdef", "stream_cl": "abcdef"}.get(kind)
+                want = {"ret": f"r{who}", "yield": f"r{who}", "sleep": f"r{who}", "ignore_body": f"r{who}", "stream": "abcdef", "stream_cl": "abcdef", "payload": "abcdef", "aiter": "abcdef"}.get(kind)
                 is_head = reqs[who].get("method") == "HEAD"
                 if is_head and r.body:
                     raise Violation("head-response-with-body", f"request {who} (HEAD, {kind}): {len(r.body)} body bytes follow the header section")
@@ -400,7 +421,7 @@ def body(rec: Rec, case: dict) -> None:
 
 # ------------------------------------------------------------------ generators
 HANDLERS = ["ret", "ret", "ret", "yield", "sleep", "http_exc", "exc", "timeout", "non_response", "read_body", "ignore_body", "stream", "stream_cl",
-            "partial_raise", "partial_timeout"]
+            "partial_raise", "partial_timeout", "payload", "aiter"]
 
 
 @st.composite
@@ -409,12 +430,14 @@ def cases(draw, deep: bool = False, with_bad: bool = False):
     reqs = []
     for i in range(n):
         h = draw(st.sampled_from(HANDLERS if not deep else ["ret", "ret", "ret", "ret", "yield", "read_body", "ignore_body"]))
-        bk = draw(st.sampled_from(["none", "none", "cl", "chunked"]))
+        bk = draw(st.sampled_from(["none", "none", "cl", "chunked"] + (["cl_deflate"] if not with_bad else [])))
         r = {"h": h, "body": bk, "n": draw(st.sampled_from([0, 1, 5, 70] + ([300, 300] if deep else []))) if bk != "none" else 0}
+        if bk == "cl_deflate":
+            r["n"] = draw(st.sampled_from([70, 5000, 300_000, 1_500_000] if not deep else [70, 5000]))
         # the same handler serves HEAD (what add_get() registers) and may answer with a status that has no body:
         # whatever it writes, the message on the wire ends with its header section
         r["method"] = draw(st.sampled_from(["POST", "POST", "POST", "GET", "HEAD", "HEAD", "PUT"])) if not with_bad else "POST"
-        if h in ("stream", "stream_cl"):
+        if h in ("stream", "stream_cl", "payload", "aiter"):
             r["status"] = draw(st.sampled_from([200, 200, 200, 204, 304]))
         if h == "yield":
             r["k"] = draw(st.integers(1, 4))
